@@ -1,4 +1,5 @@
 import MjProof.Model.Kinematics
+import MjProof.Model.DofChain
 import Drivers.Common
 /-
 Line protocol of the C07 kinematics model (mirrors the `->` records printed by harness/c/c07_oracle.c).
@@ -14,6 +15,8 @@ Floats are the 16 hex digits of their IEEE bits (`nan` for NaN), ints decimal.  
          geom_xmat .. site_xpos .. site_xmat .. cam_xpos .. cam_xmat ..          (mj_kinematics + fixed cameras)
   INTEG  jnt_type nj .. qpos nq .. qvel nv .. dt 1 ..                  -> nq floats   (mj_integratePos)
   DIFF   jnt_type nj .. qpos1 nq .. qpos2 nq .. dt 1 ..                -> nv floats   (mj_differentiatePos)
+  CHAIN  body_weldid nb .. body_dofnum nb .. body_dofadr nb .. dof_parentid nv .. b1 1 .. b2 1 .. skip 1 ..
+                                                                       -> NV c1 .. cNV   (mj_mergeChain, general case)
 
 Joint types as in mjtJoint: 0 free, 1 ball, 2 slide, 3 hinge (checked against the headers by checks/c07.py).
 Anything else, a malformed token, an index out of range or a length mismatch -> bad-op.
@@ -208,6 +211,25 @@ def runDiff (g : List (String × List String)) : Option String := do
   if pa ≠ q1.size then none else
   pure (showFs out)
 
+def runChain (g : List (String × List String)) : Option String := do
+  let weld ← lookI g "body_weldid"
+  let dofnum ← lookI g "body_dofnum"
+  let dofadr ← lookI g "body_dofadr"
+  let par ← lookI g "dof_parentid"
+  let one (key : String) : Option Int := match (lookI g key).map Array.toList with
+    | some [x] => some x
+    | _ => none
+  let b1 ← (← one "b1") |> nat?
+  let b2 ← (← one "b2") |> nat?
+  let skip ← one "skip"
+  if g.length ≠ 7 ∨ weld.size ≠ dofnum.size ∨ weld.size ≠ dofadr.size ∨ ¬ (skip = 0 ∨ skip = 1) then none else
+  if ¬ MjProof.DofChain.parOk par then none else
+  let s1 ← MjProof.DofChain.lastDof weld dofnum dofadr b1
+  let s2 ← MjProof.DofChain.lastDof weld dofnum dofadr b2
+  if s1 > par.size ∨ s2 > par.size then none else
+  let c := MjProof.DofChain.mergeChain (MjProof.DofChain.parOf par) (skip == 1) s1 s2
+  pure (" ".intercalate ((toString c.length) :: c.map toString))
+
 def answer (line : String) : String :=
   match words line with
   | op :: rest =>
@@ -217,6 +239,7 @@ def answer (line : String) : String :=
        | "FK" => runFK g
        | "INTEG" => runInteg g
        | "DIFF" => runDiff g
+       | "CHAIN" => runChain g
        | _ => none).getD "bad-op"
     | none => "bad-op"
   | [] => "bad-op"
